@@ -9,7 +9,7 @@ From updog Require Import Conc LockPolicy SingleSection.
 From Gen Require Import LockFacts.
 Local Open Scope list_scope.
 
-Definition policy_C17 : policy := Eval vm_compute in LockPolicy.policy_C17 gen_mutexes gen_methods gen_external gen_selfsync gen_funs.
+Definition policy_C17 : policy := Eval vm_compute in choose_policy (LockPolicy.policy_C17 gen_mutexes gen_methods gen_external gen_selfsync gen_funs) gen_funs entries_C17 gen_all_mutexes.
 Definition drv_mtx : string := Eval vm_compute in mutex_of gen_mutexes "updogDriver".
 Definition funs := reachable_funs policy_C17 gen_funs entries_C17.
 Definition skeletons_C17 : list stmt := map gen_entry entries_C17.
